@@ -20,10 +20,30 @@ pub struct GenCfg {
     pub zero_arity: usize,
     /// this run draws unusually large diagrams
     pub large: bool,
+    /// this run draws diagrams past the usual power-of-two thresholds (64, 128, 256 nodes / wires / edges)
+    pub huge: bool,
 }
 
 pub fn draw_cfg(r: &mut Rng, tier: Tier) -> GenCfg {
     // unusually large workloads at a low rate (bugs that need a size threshold to manifest)
+    // and, rarer still, workloads past the thresholds at which an implementation might switch code path
+    // (64, 128, 256 nodes, wires or hyperedges; a u8 counter)
+    let huge = if tier == Tier::Thorough { r.chance(1, 150) } else { r.chance(1, 500) };
+    if huge {
+        return GenCfg {
+            max_extra_nodes: *r.pick(&[70, 140, 300]),
+            max_edges: *r.pick(&[20, 70, 140, 280]),
+            max_arity: r.range(1, 6),
+            node_labels: r.range(2, 6),
+            edge_labels: r.range(1, 5),
+            max_iface: *r.pick(&[6, 40, 70, 140, 270]),
+            reuse_boundary: *r.pick(&[0, 150, 400]),
+            repeat_in_edge: *r.pick(&[0, 100, 400]),
+            zero_arity: *r.pick(&[0, 100]),
+            large: true,
+            huge: true,
+        };
+    }
     let large = if tier == Tier::Thorough { r.chance(1, 25) } else { r.chance(1, 120) };
     if large {
         return GenCfg {
@@ -37,6 +57,7 @@ pub fn draw_cfg(r: &mut Rng, tier: Tier) -> GenCfg {
             repeat_in_edge: *r.pick(&[0, 100, 400]),
             zero_arity: *r.pick(&[0, 100]),
             large: true,
+            huge: false,
         };
     }
     let big = tier == Tier::Thorough && r.chance(1, 4);
@@ -51,6 +72,7 @@ pub fn draw_cfg(r: &mut Rng, tier: Tier) -> GenCfg {
         repeat_in_edge: *r.pick(&[0, 100, 400]),
         zero_arity: *r.pick(&[0, 100, 300]),
         large: false,
+        huge: false,
     }
 }
 
